@@ -95,7 +95,10 @@ fn check(ctx: &Ctx, c: &Case, label: &str, counting: bool) -> Result<(), Fail> {
 	}
 	let (entries, end_off) = walk_tar(&p).map_err(|e| fail("tar", e))?;
 	let names: Vec<&str> = entries.iter().map(|e| e.name.as_str()).collect();
-	if names != want {
+	// frames.arrow is required (and last) when the game has frames; for a zero-frame game the property leaves
+	// it open, so both shapes are accepted there
+	let without_frames: Vec<&str> = want[..want.len() - 1].to_vec();
+	if names != want && !(m.frames.is_empty() && names == without_frames) {
 		return Err(fail("entries", format!("entries {:?}, expected {:?}", names, want)));
 	}
 	for e in &entries {
@@ -105,8 +108,10 @@ fn check(ctx: &Ctx, c: &Case, label: &str, counting: bool) -> Result<(), Fail> {
 		if !(e.typeflag == b'0' || e.typeflag == 0) {
 			return Err(fail("typeflag", format!("{} is not a regular file entry", e.name)));
 		}
-		if &e.magic != b"ustar  \0" {
-			return Err(fail("magic", format!("{} does not carry the GNU tar magic", e.name)));
+		// any tar dialect is a tar archive: GNU ("ustar  \0"), POSIX ("ustar\0" + "00") or v7 (no magic)
+		let m8 = &e.magic;
+		if !(m8 == b"ustar  \0" || &m8[..6] == b"ustar\0" || m8.iter().all(|b| *b == 0)) {
+			return Err(fail("magic", format!("{} carries an unknown tar magic {:?}", e.name, m8)));
 		}
 	}
 	if p.len() < end_off + 1024 || p[end_off..].iter().any(|b| *b != 0) || p.len() % 512 != 0 {
@@ -118,8 +123,15 @@ fn check(ctx: &Ctx, c: &Case, label: &str, counting: bool) -> Result<(), Fail> {
 	for n in names.iter().filter(|n| n.ends_with(".json")) {
 		parse_json(data(n)).map_err(|e| fail("json", format!("{} is not valid JSON: {}", n, e)))?;
 	}
+	// "equal to the JSON rendering of what the reader reconstructs": compared as ordered JSON trees (so
+	// whitespace / pretty-printing is immaterial, key order and values are not)
 	let want_json = |n: &str, v: Vec<u8>| -> Result<(), Fail> {
-		if data(n) != &v[..] {
+		if !names.contains(&n) {
+			return Ok(());
+		}
+		let a = parse_json(data(n)).map_err(|e| fail("json", format!("{}: {}", n, e)))?;
+		let b = parse_json(&v).map_err(|e| fail("json", format!("rendering of {}: {}", n, e)))?;
+		if a != b {
 			return Err(fail(&format!("json_mismatch {}", n), format!("{} differs from the JSON rendering of what the reader reconstructs: {} vs {}", n, crate::cmp::trunc(&String::from_utf8_lossy(data(n))), crate::cmp::trunc(&String::from_utf8_lossy(&v)))));
 		}
 		Ok(())
